@@ -138,6 +138,23 @@ impl CliOptions {
 
     fn run_lib_equiv(&self, case: &CliCase, mut m: Metrics, mut h: Fnv) -> RunOut {
         let traces: Vec<Trace> = vec![];
+        let mut long = case.clone();
+        if case.extra["t0_long"].as_bool().unwrap_or(false) {
+            // threshold just above the bound after 3000 iterations (1 thread, in-process)
+            let mut probe = case.clone();
+            probe.opts.t = Some(3000);
+            probe.opts.r = None;
+            probe.opts.p = Some(1);
+            let w = case.write();
+            match library_result(&probe, &w.bytes).ok().and_then(|o| o.result.ok()) {
+                Some(s) if s.total_bound.is_finite() && s.total_bound > 0.0 => {
+                    long.opts.r = Some(s.total_bound * 1.001);
+                    m.add("probe_unlimited_budget_needs_thousands_of_iterations", 1);
+                }
+                _ => return finish(m, h, Verdict::Skip("t0-long-not-applicable"), traces),
+            }
+        }
+        let case = &long;
         let (printed, out, w) = match self.spawn(case, &mut m, &mut h) {
             Ok(x) => x,
             Err(v) => return finish(m, h, v, traces),
@@ -469,12 +486,30 @@ impl Prop for CliOptions {
                 if opts.p == Some(0) || opts.p.is_none() {
                     env.cores = *r.pick(&[Cores::Unknown, Cores::Count(1), Cores::Count(2), Cores::Count(3)]);
                 }
-                if r.coin(0.12) {
-                    // unlimited budget with a threshold that is certainly reached
+                if r.coin(0.15) {
+                    // unlimited budget (-t 0) with a threshold that the CFR theorem guarantees within
+                    // 400 iterations of the unsampled vanilla solver (each per-player bound is at
+                    // most 2*D*N*sqrt(A)/sqrt(T)), but that is usually NOT met by the first few; a
+                    // run that does not stop is cut off by the simulator's step budget
                     opts.t = Some(0);
                     opts.method = Some(Method::Full);
                     opts.discount = Some("vanilla".into());
-                    opts.r = Some(((4.0 * d * (n + 1.0)) * 1000.0).round() / 1000.0 + 1.0);
+                    let a = game.stats().a() as f64;
+                    opts.r = Some(((d * n.max(1.0) * a.sqrt() / 10.0) * 1000.0).ceil() / 1000.0 + 0.001);
+                    let k = opts.p.unwrap_or(0).max(4) as u64;
+                    env.step_budget = crate::solve::step_budget(game.stats().nodes, 401, k as usize);
+                } else if game.stats().nodes <= 40 && r.coin(0.06) {
+                    // "0 = unlimited" can only be told from a large finite cap by a run that needs
+                    // more iterations than the cap: the threshold is set (in run) just above the
+                    // bound the library reaches after 3000 iterations
+                    opts.t = Some(0);
+                    opts.method = Some(Method::Full);
+                    opts.discount = Some("vanilla".into());
+                    opts.p = Some(*r.pick(&[1usize, 1, 2]));
+                    opts.r = Some(1.0);
+                    opts.c = None;
+                    extra["t0_long"] = json!(true);
+                    env.step_budget = crate::solve::step_budget(game.stats().nodes, 3001, 2);
                 } else if let Some(x) = opts.r {
                     opts.r = Some(((x * d) * 1000.0).round() / 1000.0);
                 }
